@@ -9,6 +9,8 @@
 EXTENDS Traces, TracesPick, Json, IOUtils
 
 SvcABC == <<"A", "B", "C">>
+SvcAB == <<"A", "B">>
+NoMalformations == {}
 AllMal == MalKinds
 Write(x, file) == Serialize(ToJson(x) \o "\n", file,
                      [format |-> "TXT", charset |-> "UTF-8", openOptions |-> <<"WRITE", "CREATE", "APPEND">>]).exitValue = 0
@@ -25,7 +27,7 @@ RedOut(svc) ==
   [service |-> svc,
    entries |-> SetToSeq({c.id : c \in E}), def |-> SetToSeq({c.id : c \in EntriesDef(F, svc)}), poss |-> SetToSeq({c.id : c \in EntriesPoss(F, svc)}),
    count |-> Cardinality(E), nerr |-> Cardinality({c \in E : c.status = "error"}),
-   pct |-> IF E = {} THEN <<>> ELSE [k \in 1 .. 4 |-> LET p == <<50, 90, 95, 99>>[k] IN [p |-> p, lo |-> PctLo(E, p), hi |-> PctHi(E, p)]]]
+   pct |-> IF E = {} THEN <<>> ELSE [k \in 1 .. 4 |-> LET p == <<50, 90, 95, 99>>[k] IN [p |-> p, lo |-> PctLo(E, p), hi |-> PctHi(E, p), frac |-> PctFrac(E, p)]]]
 ForestHash == (FoldLeft(LAMBDA acc, s : acc * 3 + s.id * 7 + s.trace * 13 + s.parent * 31 + SvcIdx(s.service) * 17 + s.span * 5
                                           + (IF s.status = "error" THEN 11 ELSE 0), PickSeed * 101 + 7, forest)
                + (IF mal.kind = "none" THEN 0 ELSE 1000 + mal.i * 37 + mal.j * 53))
